@@ -118,6 +118,36 @@ def _neg(t):
     return tuple(-x for x in t)
 
 
+def is_wheel(cards):
+    """5-4-3-2-A"""
+    cards = [c if isinstance(c, tuple) else rs(c) for c in cards]
+    return len(cards) == 5 and sorted(r for r, _ in cards) == \
+        sorted(['A', '2', '3', '4', '5'])
+
+
+def key_rules(hand_type, cards):
+    """``key`` by the rule book where the engine's documented design and the
+    rule book part: in deuce-to-seven lowball the ace is only a high card, so
+    5-4-3-2-A is no straight but the best ace-high (WSOP live-action rule
+    291, bundled in docs/_static).  Only C04 uses this; the other checks
+    take the hand type's comparison as given."""
+    cards = [c if isinstance(c, tuple) else rs(c) for c in cards]
+    t = BASE.get(hand_type, hand_type)
+    if t == 'standard_low' and is_wheel(cards):
+        k = _high5(cards, HI, -99, False)      # no wheel straight
+        return None if k is None else _neg(k)
+    return key(hand_type, cards)
+
+
+def category_rules(hand_type, cards):
+    cards = [c if isinstance(c, tuple) else rs(c) for c in cards]
+    t = BASE.get(hand_type, hand_type)
+    if t == 'standard_low' and is_wheel(cards):
+        k = _high5(cards, HI, -99, False)
+        return LABELS[k[0]] if k else None
+    return category(hand_type, cards)
+
+
 def _regular_low(cards):
     """Ace-to-five low: aces low, straights and flushes do not exist."""
     if len(cards) != 5 or not _known(cards):
